@@ -317,11 +317,29 @@ async fn node_for(root: &dyn WritableZoneNode, owner: &str, h: &mut Hist) -> Opt
 }
 
 /// One update batch through the low-level interface or the ZoneUpdater.
-async fn batch(zone: &Zone, c: &mut Content, h: &mut Hist, names: &[String], specials_via_write: bool, who: usize) {
+async fn batch(zone: &Zone, c: &mut Content, h: &mut Hist, names: &[String], specials_via_write: bool, clean: bool, who: usize) {
     let via_updater = sim::chance("batch.via_updater", 1, 2);
     let n_ops = 1 + sim::draw("batch.n_ops", 6);
     let abort = sim::chance("batch.abort", 1, 5);
     let mut working = c.clone();
+    // In a clean history no operation may create or leave behind a tree node
+    // without records (the triggers of the known history-dependence
+    // findings), so every deviation in such a run is judged strictly.
+    let owns = |w: &Content, o: &str| w.keys().any(|(oo, _)| oo == o);
+    let ancestors_own = |w: &Content, o: &str| -> bool {
+        let mut cur = o.to_string();
+        loop {
+            match cur.split_once('.') {
+                Some((_, rest)) if rest != APEX && rest.ends_with(APEX) => {
+                    if !w.keys().any(|(oo, _)| oo == rest) {
+                        return false;
+                    }
+                    cur = rest.to_string();
+                }
+                _ => return true,
+            }
+        }
+    };
     let serial = c.get(&(APEX.to_string(), Rtype::SOA)).and_then(|(_, rds)| rds.iter().next().and_then(|rd| rd.split_whitespace().nth(2).and_then(|s| s.parse::<u32>().ok()))).unwrap_or(0);
     let new_soa = RecSpec {
         owner: APEX.to_string(),
@@ -342,7 +360,8 @@ async fn batch(zone: &Zone, c: &mut Content, h: &mut Hist, names: &[String], spe
             0..=4 => {
                 if let Some(r) = gen_legal_rec(&working, names, specials_via_write) {
                     let exists = working.get(&(r.owner.clone(), r.rtype)).is_some_and(|(_, rds)| rds.contains(&canon_rdata(&r.owner, r.rtype, &r.rdata)));
-                    if !exists {
+                    let allowed = !clean || (ancestors_own(&working, &r.owner) && (!abort || owns(c, &r.owner)) && (owns(c, &r.owner) || ancestors_own(c, &r.owner)));
+                    if !exists && allowed {
                         apply_add(&mut working, &r);
                         ops.push(Op::Add(r));
                     }
@@ -368,11 +387,18 @@ async fn batch(zone: &Zone, c: &mut Content, h: &mut Hist, names: &[String], spe
                     if r.rtype == Rtype::NS && working.contains_key(&(r.owner.clone(), Rtype::DS)) && working.get(&(r.owner.clone(), Rtype::NS)).map(|x| x.1.len()) == Some(1) {
                         continue;
                     }
+                    if clean {
+                        // Never empty an owner name.
+                        let n_records: usize = working.iter().filter(|((o, _), _)| *o == r.owner).map(|(_, (_, rds))| rds.len()).sum();
+                        if n_records <= 1 {
+                            continue;
+                        }
+                    }
                     apply_del(&mut working, &r);
                     ops.push(Op::Del(r));
                 }
             }
-            7 | 8 => {
+            7 | 8 if !clean => {
                 // Delete every record of one owner name.
                 let owners: Vec<String> = working
                     .keys()
@@ -401,6 +427,7 @@ async fn batch(zone: &Zone, c: &mut Content, h: &mut Hist, names: &[String], spe
                     ops.push(Op::DelName(o, recs));
                 }
             }
+            _ if clean => {}
             _ => {
                 // Full replacement (AXFR style): everything goes, a new
                 // (small) legal content comes.
@@ -663,10 +690,14 @@ async fn run(_tier: Tier) {
     let mut h = Hist::default();
     // Does this run send CNAME/NS records through the write interface
     // (known not to be honoured)? Most runs keep them to the builder path.
-    let specials_via_write = sim::chance("cfg.specials_via_write", 1, 4);
+    let clean = sim::chance("cfg.clean_history", 1, 2);
+    let specials_via_write = !clean && sim::chance("cfg.specials_via_write", 1, 3);
+    if clean {
+        sim::stat("probe.clean_history_run");
+    }
     let n_batches = sim::draw("n_batches", 7);
     for b in 0..n_batches {
-        batch(&zone, &mut c, &mut h, &names, specials_via_write, b as usize).await;
+        batch(&zone, &mut c, &mut h, &names, specials_via_write, clean, b as usize).await;
         sim::stat("counter.batches");
         if sim::stopped() {
             return;
@@ -744,7 +775,7 @@ async fn run(_tier: Tier) {
             }
             // (2) history independence.
             if h.commits + h.aborts > 0 && a_hist != a_dir {
-                let m = marker(&c, &h, q);
+                let m = if clean { "clean-history" } else { marker(&c, &h, q) };
                 let sig = format!("history-{}-direct-{}/{}", a_hist.kind(), a_dir.kind(), m);
                 if sim::violation(
                     P8,
